@@ -25,6 +25,26 @@ type TrieCase struct {
 	legacyLayout string
 }
 
+// optEnc is a user-defined variable-width encoder of the harness: a value is either
+// absent (zero-length encoding) or 4 bytes.  The leaf array stores such values as a
+// fixed-size array of the non-empty elements plus a presence bitmap.
+type optEnc struct{}
+
+func (optEnc) Encode(d interface{}) []byte { return append([]byte{}, d.([]byte)...) }
+func (optEnc) Decode(b []byte) (int, interface{}) {
+	if len(b) < 4 {
+		return 0, []byte{}
+	}
+	return 4, append([]byte{}, b[:4]...)
+}
+func (optEnc) GetSize(d interface{}) int { return len(d.([]byte)) }
+func (optEnc) GetEncodedSize(b []byte) int {
+	if len(b) < 4 {
+		return 0
+	}
+	return 4
+}
+
 type teVal struct {
 	A int32
 	B uint16
@@ -46,6 +66,8 @@ func (c *TrieCase) encoder() encode.Encoder {
 		return encode.I64{}
 	case c.Enc == "int":
 		return encode.Int{}
+	case c.Enc == "opt4":
+		return optEnc{}
 	case c.Enc == "s16":
 		return encode.String16{}
 	case c.Enc == "te":
@@ -98,6 +120,12 @@ func (c *TrieCase) typedVals() interface{} {
 		r := make([]int, n)
 		for i, b := range c.Vals {
 			r[i] = int(int64(binary.LittleEndian.Uint64(b)))
+		}
+		return r
+	case c.Enc == "opt4":
+		r := make([][]byte, n)
+		for i, b := range c.Vals {
+			r[i] = append([]byte{}, b...)
 		}
 		return r
 	case c.Enc == "s16":
